@@ -184,19 +184,48 @@ def r3_convergence(R, sh: SolverShape) -> None:
     R.check(sel, gq, 'submodel-check-values', "each submodel's check variables at t are part of the test",
             "get_check_values() omits the submodels' check variables", where=g.where)
     # the submodel entries are those selected: loop over all submodels filtered by `k in submodels`, or over the selection
-    ok = False
+    # every iteration over the submodels is either over the selection itself or filtered by membership in it
+    def over_all(it: ast.AST) -> bool:
+        if isinstance(it, ast.Call) and isinstance(it.func, ast.Attribute) and it.func.attr in ('items', 'keys', 'values') and not it.args:
+            it = it.func.value
+        return text(it) in SUBMODEL_LOOKUPS
+
+    def in_selection(test: ast.AST, keyvar: str, positive: bool = True) -> bool:
+        from fsa.match import nnf_atoms
+        for (a, truth) in nnf_atoms(test, positive):
+            if truth and isinstance(a, ast.Compare) and len(a.ops) == 1 and isinstance(a.ops[0], ast.In) and text(a.comparators[0]) == 'submodels' \
+                    and text(a.left) == keyvar:
+                return True
+        return False
+
+    def keyvar_of(target: ast.AST, it: ast.AST) -> str:
+        if isinstance(target, ast.Tuple) and target.elts:
+            return text(target.elts[0])
+        return text(target)
+
+    found = unfiltered = 0
     for n in ast.walk(g.node):
         if isinstance(n, ast.For):
-            it = text(n.iter)
-            if it in ('self.submodels.items()', "self.__dict__['submodels'].items()"):
-                tests = [x for x in n.body if isinstance(x, ast.If)]
-                for t in tests:
-                    if isinstance(t.test, ast.Compare) and isinstance(t.test.ops[0], ast.In) and text(t.test.comparators[0]) == 'submodels' \
-                            and len(n.body) == 1:
-                        ok = True
-            if it == 'submodels':
-                ok = True
-    R.check(ok, gq, 'selected-only', 'exactly the selected submodels contribute check values',
+            if text(n.iter) == 'submodels':
+                found += 1
+            elif over_all(n.iter):
+                kv = keyvar_of(n.target, n.iter)
+                body = [s_ for s_ in n.body if not (isinstance(s_, ast.Expr) and isinstance(s_.value, ast.Constant))]
+                filt = (len(body) == 1 and isinstance(body[0], ast.If) and not body[0].orelse and in_selection(body[0].test, kv)) or \
+                    (body and isinstance(body[0], ast.If) and not body[0].orelse and len(body[0].body) == 1 and isinstance(body[0].body[0], ast.Continue)
+                     and in_selection(body[0].test, kv, positive=False))
+                found += 1
+                unfiltered += 0 if filt else 1
+        elif isinstance(n, ast.comprehension):
+            if text(n.iter) == 'submodels':
+                found += 1
+            elif over_all(n.iter):
+                kv = keyvar_of(n.target, n.iter)
+                found += 1
+                unfiltered += 0 if any(in_selection(c, kv) for c in n.ifs) else 1
+    if not found:
+        raise Unsupported(f'{gq}: no iteration over the submodels found')
+    R.check(not unfiltered, gq, 'selected-only', 'exactly the selected submodels contribute check values',
             'get_check_values() does not restrict submodel entries to the selection', where=g.where)
     # the difference mapping must cover every key of the check-value mapping
     from rules.solver_common import value_roles
